@@ -119,6 +119,8 @@ struct Agg {
     sim_max: Option<i128>,
     sim_span_sum: i128,
     failing: Vec<(u64, Vec<Violation>)>,
+    /// observe-arm runs that violated, rewritten with their recorded entropy (run index -> scripted run)
+    scripted: BTreeMap<u64, Run>,
     known_hits: BTreeMap<usize, (u64, u64)>, // entry -> (count, first run)
     samples: BTreeMap<u64, Value>,
 }
@@ -157,6 +159,24 @@ pub fn on_fresh_thread<R: Send>(f: impl FnOnce() -> R + Send) -> R {
                 std::process::exit(2)
             })
     })
+}
+
+/// Rewrites an observe-arm run into one that replays exactly: every build that drew real OS entropy is
+/// preceded by a recording of what it drew and switched to the simulated arm.
+pub fn script_observed(run: &Run, obs: &[Obs]) -> Run {
+    let mut out = run.clone();
+    out.events.clear();
+    for (op, ob) in run.events.iter().zip(obs.iter()) {
+        match (op, ob) {
+            (Op::Build { b, key, out: o, entropy_seed, entropy_fail, observe: true, now_ns }, Obs::Build { draws, .. }) => {
+                out.events.push(Op::ScriptEntropy { draws: draws.iter().map(|d| d.real_hex.clone()).collect() });
+                out.events.push(Op::Build { b: *b, key: *key, out: *o, entropy_seed: *entropy_seed, entropy_fail: entropy_fail.clone(), observe: false, now_ns: *now_ns });
+            }
+            _ => out.events.push(op.clone()),
+        }
+    }
+    out.scenario = format!("{} (observe arm, entropy replayed from the recording)", run.scenario);
+    out
 }
 
 pub fn exec_and_judge(sc: &Scenario, run: &Run) -> Judgement {
@@ -239,7 +259,13 @@ pub fn run_scenario(sc: &'static Scenario, opts: RunnerOpts) -> (Value, i32) {
                             local.runs_skipped_other_set += 1;
                             continue;
                         }
-                        let j = exec_and_judge(sc, &run);
+                        let observe_arm = run.events.iter().any(|e| matches!(e, Op::Build { observe: true, .. }));
+                        let (j, obs_kept) = if observe_arm {
+                            let (o, j) = exec_obs_and_judge(sc, &run);
+                            (j, Some(o))
+                        } else {
+                            (exec_and_judge(sc, &run), None)
+                        };
                         local.runs_executed += 1;
                         local.events += run.events.len() as u64;
                         local.evaluations += j.evaluations;
@@ -279,6 +305,14 @@ pub fn run_scenario(sc: &'static Scenario, opts: RunnerOpts) -> (Value, i32) {
                                 }
                             }
                             if !unknown.is_empty() && local.failing.len() < 64 {
+                                // real OS entropy cannot be had twice: keep what this execution drew
+                                if let (Some(o), true) = (&obs_kept, local.scripted.len() < 4) {
+                                    let s = script_observed(&run, o);
+                                    let j2 = exec_and_judge(sc, &s);
+                                    if j2.violations.iter().any(|v| unknown.iter().any(|u| u.clause == v.clause)) {
+                                        local.scripted.insert(i, s);
+                                    }
+                                }
                                 local.failing.push((i, unknown));
                             }
                         }
@@ -303,6 +337,7 @@ pub fn run_scenario(sc: &'static Scenario, opts: RunnerOpts) -> (Value, i32) {
                     }
                     g.sim_span_sum += local.sim_span_sum;
                     g.failing.extend(local.failing);
+                    g.scripted.extend(local.scripted);
                     for (k, (c, first)) in local.known_hits {
                         let e = g.known_hits.entry(k).or_insert((0, first));
                         e.0 += c;
@@ -339,11 +374,19 @@ pub fn run_scenario(sc: &'static Scenario, opts: RunnerOpts) -> (Value, i32) {
         if !seen_sig.insert(sig) || reported.len() >= 5 {
             continue;
         }
-        let run = match (sc.gen)(&ctx, *i) {
+        let run = match g.scripted.get(i).cloned().or_else(|| (sc.gen)(&ctx, *i)) {
             Some(r) => r,
             None => continue,
         };
         let original_events = run.events.len();
+        // (a scripted run's event indices differ from the observed one's: match on the clause)
+        let v0 = &match g.scripted.get(i) {
+            Some(s) => {
+                let j = exec_and_judge(sc, s);
+                j.violations.iter().find(|v| v.clause == v0.clause).cloned().unwrap_or_else(|| v0.clone())
+            }
+            None => v0.clone(),
+        };
         let (min_run, vmin, execs) = minimise(sc, &run, v0, &known);
         let path = format!("{}/{}-{}-{}-{}.json", opts.replay_dir, sc.property, this_set(), opts.verif_seed, i);
         let file = replay_doc(sc.property, opts.verif_seed, *i, &vmin, original_events, &min_run, execs, "in-process");
